@@ -1,9 +1,6 @@
-import RaftLogModel.Props.C11
+import RaftLogModel.Props.C11Names
 open RaftLog
 #print axioms c11_name_roundtrip
 #print axioms c11_name_length
 #print axioms c11_name_injective
 #print axioms c11_name_order
-#print axioms c11_segment_is_record_place
-#print axioms c11_rotation
-#print axioms c11_new_chunk_abuts
